@@ -260,12 +260,42 @@ func fsResultWord(ret *ast.ReturnStmt) string {
 
 // fsSearchFn: the function that searches the message list for an id, starting from an exported entry point: the entry
 // itself when its body has a top-level loop over the list, else the first package-local callee (two levels deep) that has
+// fsListLoop: a loop over the whole message list — `for … := range <list>` or the index form `for i := …; i < len(<list>); i++` — and its body
+func fsListLoop(p *crPkg, s ast.Stmt) (*ast.BlockStmt, bool) {
+	switch l := s.(type) {
+	case *ast.RangeStmt:
+		if fsIsField(l.X, p.sliceField) {
+			return l.Body, true
+		}
+	case *ast.ForStmt:
+		be, ok := crUnparen(l.Cond).(*ast.BinaryExpr)
+		if !ok || l.Cond == nil {
+			return nil, false
+		}
+		var lenSide ast.Expr
+		switch be.Op {
+		case token.LSS, token.NEQ:
+			lenSide = be.Y
+		case token.GTR:
+			lenSide = be.X
+		default:
+			return nil, false
+		}
+		if ce, ok := crUnparen(lenSide).(*ast.CallExpr); ok && len(ce.Args) == 1 {
+			if id, ok := ce.Fun.(*ast.Ident); ok && id.Name == "len" && fsIsField(ce.Args[0], p.sliceField) {
+				return l.Body, true
+			}
+		}
+	}
+	return nil, false
+}
+
 func fsSearchFn(p *crPkg, fd *ast.FuncDecl, loader *ast.FuncDecl, depth int) *ast.FuncDecl {
 	if fd == nil || fd.Body == nil || fd == loader {
 		return nil
 	}
 	for _, s := range fd.Body.List {
-		if rs, ok := s.(*ast.RangeStmt); ok && fsIsField(rs.X, p.sliceField) {
+		if _, ok := fsListLoop(p, s); ok {
 			return fd
 		}
 	}
@@ -293,19 +323,19 @@ func fsNotFound(p *crPkg, fd *ast.FuncDecl) string {
 	}
 	body := fd.Body.List
 	li := -1
+	var loopBody *ast.BlockStmt
 	for i, s := range body {
-		if rs, ok := s.(*ast.RangeStmt); ok && fsIsField(rs.X, p.sliceField) {
-			li = i
+		if lb, ok := fsListLoop(p, s); ok {
+			li, loopBody = i, lb
 			break
 		}
 	}
 	if li < 0 || li+1 >= len(body) {
 		return "unknown"
 	}
-	loop := body[li].(*ast.RangeStmt)
 	// variables assigned inside the loop
 	assigned := map[*ast.Object]bool{}
-	ast.Inspect(loop.Body, func(x ast.Node) bool {
+	ast.Inspect(loopBody, func(x ast.Node) bool {
 		if as, ok := x.(*ast.AssignStmt); ok && as.Tok == token.ASSIGN {
 			for _, l := range as.Lhs {
 				if id, ok := l.(*ast.Ident); ok && id.Obj != nil {
@@ -326,7 +356,7 @@ func fsNotFound(p *crPkg, fd *ast.FuncDecl) string {
 	if ret, ok := next.(*ast.ReturnStmt); ok && li+2 == len(body) {
 		// the loop must leave the function on a match (otherwise the final return is not the not-found answer)
 		returns := false
-		ast.Inspect(loop.Body, func(x ast.Node) bool {
+		ast.Inspect(loopBody, func(x ast.Node) bool {
 			if _, ok := x.(*ast.ReturnStmt); ok {
 				returns = true
 			}
